@@ -486,6 +486,7 @@ class StmtMixin:
         rec = LoopRecord(len(run.loops), st, it, dict(fr.env), fr.func.qual)  # type: ignore[arg-type]
         rec.carried = list(all_assigned)
         run.loops.append(rec)
+        run.effect("loop", lid, None, it, st)
         # containers that the body may mutate in place (x.append(..), f(.., x)) have unknown content from here on;
         # converted in place because callers may hold the same object
         for n in touched_names(body):
